@@ -847,6 +847,8 @@ STUB_REGISTRY = {
  'qsbr_free_now': (r'unodb::qsbr_per_thread::on_next_epoch_deallocate\(', lambda a: '{ m_free(%s); return; }' % a[1]),
  'enc_no_growth': (r'^unodb::detail::ensure_capacity\(', lambda a: '{ __CPROVER_assert(0, "CUT: key_encoder buffer growth is unreachable in this harness"); __CPROVER_assume(0); }'),
  'lib_abort': (r'^unodb::detail::(cannot_happen|crash|msg_stacktrace_abort|assert_failure)\(', lambda a: '{ __CPROVER_assert(0, "unodb cannot_happen/crash/assert_failure reached"); __CPROVER_assume(0); }'),
+ 'keybuf_no_growth': (r'^unodb::detail::key_buffer::ensure_capacity\(', lambda a: '{ __CPROVER_assert(0, "CUT: iterator key_buffer growth is unreachable in this harness"); __CPROVER_assume(0); }'),
+ 'keybuf_noop': (r'^unodb::detail::key_buffer::(push|pop)\(', lambda a: '{ return; }'),
  'tag_ptr': (r'unodb::detail::basic_node_ptr<.*>::tag_ptr\(', lambda a: '{ __CPROVER_assert((IR2C_PTROFF(%s) & 7) == 0, "node pointer 8-aligned before tagging"); return (uint64_t)(uintptr_t)(%s + %s); }' % (a[0], a[0], a[1])),
  'node_type': (r'unodb::detail::basic_node_ptr<.*>::type\(\) const', lambda a: '{ uint64_t x = *(uint64_t*)%s; return (uint8_t)IR2C_TAGOF(x); }' % a[0]),
  'node_ptr': (r'auto\* unodb::detail::basic_node_ptr<.*>::ptr<.*>\(\) const', lambda a: '{ uint64_t x = *(uint64_t*)%s; return (ptr)(uintptr_t)(x - IR2C_TAGOF(x)); }' % a[0]),
